@@ -23,7 +23,7 @@ MANIFEST = {
              'C15_axis0_is_per_column, C15_noncomposable_is_per_row, C15_values_are_the_columns (consolidation keeps every column); '
              'C15_table_composable_sound / C15_table_unity_sound / C15_table_ddof_bound (ddof bound in both the skipna and the non-skipna function of var and std) against the regenerated table (declaring mean composable breaks the proof with no input); '
              'C15_skipna_ignores_missing / _all_missing / C15_noskip_propagates_or_rejects; C15_argminmax_refinement + C15_argminmax_first_extreme (first position of the extreme value) + C15_loc_is_label_at_iloc; '
-             'C15_cum_keeps_shape / C15_cum_refinement; C15_layout_independent. Refuted/C15.v: three vm_compute witnesses where the faithful M leaves S (known findings). '
+             'C15_cum_keeps_shape / C15_cum_refinement; C15_layout_independent; C15_row_kind_is_resolve_dtype (the row-dtype rule of the model = util.resolve_dtype regenerated from /repo, on the 7 generated dtypes). Refuted/C15.v: three vm_compute witnesses where the faithful M leaves S (known findings). '
              'Correspondence: public Frame calls (every function x axis x skipna x ddof, every block layout of every int/float/bool kind tuple up to width 2 plus six tuples of width 3 (quick) / up to width 3 plus ten tuples of width 4 (thorough), '
              '0- and 1-sized axes, random wider frames, labels of the result), TypeBlocks.ufunc_axis_skipna called directly with the flag combinations container.py never passes, '
              'Series and Index reductions against the one-line spec, string / datetime frames against their per-line Series, all evaluated inside Coq by vm_compute (M and S) on the observed inputs.'),
@@ -31,10 +31,10 @@ MANIFEST = {
              'the one-line functions (np.sum/np.nanmin/... on ONE 1-D or 2-D array are assumed to compute the mathematical function; S is the independent statement of that function and every '
              'case checks the implementation against it). Float results: an exactly representable result must be reproduced bit for bit, otherwise to 2^-40 relative (NumPy rounding and summation '
              'order are not part of the property); degrees of freedom <= 0 accept NaN or an infinity. '
-             'Partial: object-dtype columns (None / mixed Python objects) are not generated; complex, timedelta, float32 not generated; int8/uint8/int16 only as homogeneous frames (M has no integer wrap-around: inputs whose exact result leaves the row dtype are a known finding); string and datetime columns are checked on the '
+             'Partial: object-dtype columns (numbers, bools, None, NaN) are generated for all/any and for sum/prod/min/max only (mean/median/std/var over object arrays are not); complex, float32 and mixed datetime units not generated; string, bytes, datetime64[D,s] and timedelta64[D] columns are checked on the Python side against their own per-line Series; IndexHierarchy reductions only for int / float labels of depth 2-3; Batch / Quilt / Bus reductions, the ignored `out` argument and axis < 0 are not covered; int8/uint8/int16 only as homogeneous frames (M has no integer wrap-around: inputs whose exact result leaves the row dtype are a known finding); string and datetime columns are checked on the '
              'Python side (frame vs its own per-line Series) and are not in the Coq model; overflow of int64 excluded by construction (|values| <= 8). '
              'M does not describe NumPy reductions over object arrays (rows mixing bool with numbers) nor uninitialised memory: those input classes are excluded from the M comparison by m_faithful and '
-             'are known findings against S. Nine input classes violate the property on the current tree (known/C15.jsonl); the multi-block all-bool sum is repaired (c69b2b9) and kept as a regression stratum.'),
+             'are known findings against S. Fifteen input classes violate the property on the current tree (known/C15.jsonl); the multi-block all-bool sum is repaired (c69b2b9) and kept as a regression stratum.'),
     'technique': 'refinement of the block-wise reduction algorithm to the per-line specification (Coq) + differential runs evaluated inside Coq + regenerated decision table',
 }
 PROPERTY_FILES = ['Properties/C15.v']
@@ -45,6 +45,7 @@ IMPORTS = ('Require Import SF.Prelude SF.Value SF.Dtype SF.Reduce Gen.Gen_c15_ta
 RULE = ('api:reduce-all-layouts: every kind tuple over {int64,float64(NaN),bool} up to width 2 + 6 tuples of width 3 (quick) / all up to width 3 + 10 tuples of width 4 (thorough) x EVERY block layout x 10 functions x 2 axes x skipna on/off, fixed data with NaN; plus every layout of 3 (2) int8 / uint8 / int16 columns with values near the limits (column results fit the dtype, row sums do not); '
         'api:reduce-small-axes: 0 and 1 rows x 0..2(3) columns x every layout, and 0 columns x 2,3 rows; api:reduce-numeric / api:argminmax / api:cumulative: random frames (1-5 columns, 1-8 rows, values in {-3..4, .5, NaN}, random layout, ddof in {-1,0,1,2,3}); '
         'kernel: TypeBlocks.ufunc_axis_skipna with composable and size_one_unity both ways; api:series-reduce / api:index-reduce: one column as a Series, the labels of an Index; api:parity-str-datetime: every layout of 1-2(3) string / datetime64 columns; api:malformed-axis: axis 2,3 must raise; api:var-std-ddof-grid: var/std x skipna on/off x ddof 0,1,2 x axis x every layout of an int/float/int frame without missing cells, and on a Series; '
+        'extension round (routes the coverage tool showed unreached): api:indexhierarchy-reduce (IndexHierarchy / GO, 10 functions + cumsum/cumprod, both axes), api:series-cumulative (Series / Index cumsum, cumprod), api:series-loc-minmax, api:reduce-object-logical and api:reduce-object-columns (object blocks with None / NaN), api:hierarchical-labels (Frames with IndexHierarchy index / columns, loc_min / loc_max), api:framego-grown (FrameGO grown column by column), FrameGO / FrameHE classes in api:reduce-numeric, bytes / timedelta64 / datetime64[s] frames in api:parity-str-datetime; '
         'api:known-witness: one fixed input per known finding. A case is non-trivial when the frame has several blocks or several rows (kernel: when a flag differs from container.py); distinct = distinct (call, data, layout).')
 ASSUMPTIONS = ['a NumPy reduction of ONE array along an axis computes the mathematical function of each line (oracle; every case re-checks it against S)',
                'util.resolve_dtype on the generated dtypes: equal kinds stay, int64+float64 -> float64, bool with int/float -> object (row_kind in SF/Reduce.v)',
@@ -52,7 +53,8 @@ ASSUMPTIONS = ['a NumPy reduction of ONE array along an axis computes the mathem
                'NumPy 2: storing a size-1 ARRAY into an element of a numeric array raises ValueError, into a bool array stores its truth value (modelled in M_multi)']
 TRUSTED = ['tools/sfv/props/c15.py:generate -- AST extractor of the keyword constants of ContainerOperand reductions (fails closed on any other shape)']
 EXHAUSTIVE = {'quick': False, 'thorough': False}
-TRANSLATED = []
+TRANSLATED = ['resolve_dtype']
+MODEL_TRANSLATED = []          # the case terms (SF/Reduce.v) do not depend on the translated kernel; only the theorem does
 GENERATED_FILES = ['Gen/Gen_c15_table.v']
 
 FUNCS = ('sum', 'prod', 'min', 'max', 'mean', 'median', 'std', 'var', 'all', 'any')
@@ -228,6 +230,7 @@ F_ZERO_ROWS_LOGICAL = 'C15-zero-rows-logical'
 F_OBJROW = 'C15-object-rows'
 F_ARG_ALLNAN = 'C15-argminmax-all-nan'
 F_NARROW = 'C15-narrow-int-out-overflow'
+F_OBJ_ALLNONE = 'C15-object-block-all-none'
 UNITY = ('sum', 'prod', 'min', 'max', 'mean', 'median')
 
 
@@ -258,6 +261,14 @@ def _narrow_overflow(cols, fn):
     return False
 
 
+def _block_starts(layout):
+    pos, out = 0, []
+    for w, _ in layout:
+        out.append(pos)
+        pos += w
+    return out
+
+
 def classify_reduce(cols, layout, r, fn, axis, skipna):
     """The known-finding class of a reduction call, decided from the input alone (None: no known defect applies)."""
     if not cols:
@@ -271,7 +282,11 @@ def classify_reduce(cols, layout, r, fn, axis, skipna):
         return F_ONE_ROW
     if multi and axis == 0 and fn in ('sum', 'prod') and rk in 'iu' and _narrow_overflow(cols, fn):
         return F_NARROW
-    if multi and rk == 'O' and (fn in ('min', 'max') or (axis == 1 and fn in ('std', 'median', 'var', 'mean')) or (r == 0 and fn in ('sum', 'prod'))):
+    if (multi and axis == 0 and skipna and fn in ('any', 'sum', 'prod')
+            and any((not is2d) and cols[p].dtype == object and len(cols[p]) and all(x is None for x in cols[p].tolist())
+                    for p, (w, is2d) in zip(_block_starts(layout), layout))):
+        return F_OBJ_ALLNONE
+    if rk == 'O' and (multi or any(c.dtype == object for c in cols)) and (fn in ('min', 'max') or (axis == 1 and fn in ('std', 'median', 'var', 'mean')) or (r == 0 and fn in ('sum', 'prod'))):
         return F_OBJROW
     return None
 
@@ -298,21 +313,29 @@ def _gen_col(rng, k, r):
     raise ValueError(k)
 
 
+_FRAME_CLS = [None]      # the Frame class the next frames are built with (None: Frame); set by api_numeric
+
+
 def _frame(cols, layout, index, columns):
-    if cols:
-        return zoo.frame_from_columns(cols, layout, index=index, columns=columns)
     import static_frame as sf
-    return sf.Frame(index=index)
+    cls = getattr(sf, _FRAME_CLS[0]) if _FRAME_CLS[0] else sf.Frame
+    if index and isinstance(index[0], tuple):
+        index = sf.IndexHierarchy.from_labels(index)
+    if columns and isinstance(columns[0], tuple):
+        columns = sf.IndexHierarchy.from_labels(columns)
+    if cols:
+        return zoo.frame_from_columns(cols, layout, index=index, columns=columns, cls=cls)
+    return cls(index=index)
 
 
 def _common(cols, layout, index, columns):
     return {'columns_data': [_j(c.tolist()) for c in cols], 'dtypes': [str(c.dtype) for c in cols],
-            'layout': zoo.layout_str(layout), 'index': list(index), 'columns': list(columns),
-            'build': 'sfv.zoo.frame_from_columns(cols, layout, index=index, columns=columns)'}
+            'layout': zoo.layout_str(layout), 'index': list(index), 'columns': list(columns), 'class': _FRAME_CLS[0] or 'Frame',
+            'build': 'sfv.zoo.frame_from_columns(cols, layout, index=index, columns=columns, cls=class)'}
 
 
-def _reduce_case(ctx, cols, layout, fn, axis, skipna, ddof, index, columns, stratum):
-    f = _frame(cols, layout, index, columns)
+def _reduce_case(ctx, cols, layout, fn, axis, skipna, ddof, index, columns, stratum, build=None):
+    f = build() if build else _frame(cols, layout, index, columns)
     r = len(index)
     kw = {'axis': axis, 'skipna': skipna}
     if fn in ('std', 'var'):
@@ -388,6 +411,8 @@ def api_numeric(ctx):
         layouts = list(zoo.layouts_for([c.dtype for c in cols]))
         layout = rng.choice(layouts)
         ddof = rng.choice((0, 0, 1, 1, 2, 3))
+        _FRAME_CLS[0] = rng.choice((None, None, 'FrameGO', 'FrameHE'))
+        ctx.count(f'class:{_FRAME_CLS[0] or "Frame"}')
         for fn in FUNCS:
             for axis in (0, 1):
                 for skipna in (True, False):
@@ -400,6 +425,7 @@ def api_numeric(ctx):
             for axis in (0, 1):
                 for skipna in (True, False):
                     yield _cum_case(ctx, cols, layout, fn, axis, skipna, index, columns, 'api:cumulative')
+        _FRAME_CLS[0] = None
 
 
 _FIXED = {   # deterministic columns per kind, 4 rows; a NaN in the float columns
@@ -528,8 +554,14 @@ def api_small_axes(ctx):
 F_STR_SUM = 'C15-str-sum-truncated'
 F_DT_LOGICAL = 'C15-datetime-logical-uninitialised'
 F_DT_SKIPNA = 'C15-datetime-skipna'
+F_DT_MEAN = 'C15-datetime-mean-as-float'
 
 _STR_COLS = [np.array(['b', 'ab', 'ab', 'a']), np.array(['a', 'bb', 'b', 'c']), np.array(['', 'a', 'b', 'zz'])]
+_TD_COLS = [np.array([5, 2, 7, 1], dtype='timedelta64[D]'), np.array([3, 'NaT', 4, 9], dtype='timedelta64[D]'),
+            np.array([1, 1, 'NaT', 2], dtype='timedelta64[D]')]
+_DTS_COLS = [np.array(['2020-01-05T00:00:01', '2019-03-03', '2020-01-01', '2021-07-01'], dtype='datetime64[s]'),
+             np.array(['2020-02-01', 'NaT', '2018-01-01', '2020-01-02'], dtype='datetime64[s]')]
+_BYTES_COLS = [np.array([b'b', b'ab', b'ab', b'a']), np.array([b'a', b'bb', b'b', b'c']), np.array([b'', b'a', b'b', b'zz'])]
 _DT_COLS = [np.array(['2020-01-05', '2019-03-03', '2020-01-01', '2021-07-01'], dtype='datetime64[D]'),
             np.array(['2020-02-01', 'NaT', '2018-01-01', '2020-01-02'], dtype='datetime64[D]'),
             np.array(['2017-01-05', '2022-03-03', 'NaT', '2020-01-01'], dtype='datetime64[D]')]
@@ -585,19 +617,21 @@ def _parity_case(ctx, kind, cols, layout, fn, axis, skipna, index, columns):
     tags = {'fn': fn, 'axis': axis, 'skipna': skipna, 'kind': kind}
     multi = len(layout) > 1
     # the mathematical reading for datetime min/max with skipna: NaT is ignored
-    if kind == 'M' and fn in ('min', 'max') and skipna and not isinstance(got, Exception):
+    if kind in 'Mm' and fn in ('min', 'max') and skipna and not isinstance(got, Exception):
         lines = [list(c) for c in cols] if axis == 0 else [[c[i] for c in cols] for i in range(r)]
         if any(any(np.isnat(x) for x in ln) and not all(np.isnat(x) for x in ln) for ln in lines):
             tags['finding'] = F_DT_SKIPNA
             want = [_canon_py((min if fn == 'min' else max)(x for x in ln if not np.isnat(x))) if not all(np.isnat(x) for x in ln) else 'NaT' for ln in lines]
             if py_fail is None and seen != want:
                 py_fail = f'frame.{fn}(skipna=True) = {seen}; ignoring the missing cells gives {want}'
-    if kind == 'U' and fn == 'sum' and multi and axis == 0:
+    if kind in 'US' and fn == 'sum' and multi and axis == 0:
         tags['finding'] = F_STR_SUM
     if multi and axis == 0 and not skipna and fn in UNITY and r == 1 and any(w == 1 for w, _ in layout):
         tags['finding'] = F_ONE_ROW          # the same size-1 shortcut, whatever the dtype
-    if kind == 'M' and fn in ('all', 'any') and multi and any(is2d for _, is2d in layout):
+    if kind in 'Mm' and fn in ('all', 'any') and multi and any(is2d for _, is2d in layout):
         tags['finding'] = F_DT_LOGICAL
+    if kind in 'Mm' and fn in ('mean', 'median', 'std', 'var') and multi and axis == 0:
+        tags['finding'] = F_DT_MEAN          # blocks are cast to float64 first: NaT becomes a huge negative number
     desc = dict(_common(cols, layout, index, columns), call=f'frame.{fn}(axis={axis}, skipna={skipna})', observed=_j(seen),
                 per_line_as_series=_j(per_line))
     ctx.count(f'ext:{kind}:{fn}', f'axis:{axis}', f'skipna:{skipna}', f'class:{tags.get("finding", "clean")}')
@@ -606,14 +640,19 @@ def _parity_case(ctx, kind, cols, layout, fn, axis, skipna, index, columns):
 
 def api_parity_ext(ctx):
     """str and datetime64 frames, every layout: frame.f(axis) against f of every column / row taken as a Series"""
-    for kind, pool, funcs in (('U', _STR_COLS, ('min', 'max', 'all', 'any', 'sum')), ('M', _DT_COLS, ('min', 'max', 'all', 'any'))):
+    stat = ('mean', 'median', 'std', 'var')
+    for kind, pool, funcs in (('U', _STR_COLS, ('min', 'max', 'all', 'any', 'sum')), ('M', _DT_COLS, ('min', 'max', 'all', 'any')),
+                              ('S', _BYTES_COLS, ('min', 'max', 'all', 'any', 'sum')), ('m', _TD_COLS, ('min', 'max', 'sum', 'all', 'any') + stat),
+                              ('M', _DTS_COLS, ('min', 'max', 'all', 'any') + stat)):
         width = 3 if (ctx.tier == 'thorough' or kind == 'U') else 2     # str: a 2-D block of two columns next to another block
-        for m in range(1, width + 1):
+        for m in range(1, min(width, len(pool)) + 1):
             for r in ((3,) if ctx.tier == 'quick' else (1, 2, 4)):
                 cols = [pool[i][:r].copy() for i in range(m)]
                 if kind == 'U':
                     w = max(c.dtype.itemsize for c in cols)
                     cols = [c.astype(f'<U{w // 4}') for c in cols]     # one dtype so that every layout exists
+                if kind == 'S':
+                    cols = [c.astype(f'S{max(c.dtype.itemsize for c in cols)}') for c in cols]
                 index, columns = _labels(None, r, m)
                 for layout in zoo.layouts_for([c.dtype for c in cols]):
                     for fn in funcs:
@@ -657,6 +696,21 @@ def known_witnesses(ctx):
     yield _reduce_case(ctx, n3, ((2, True), (1, False)), 'prod', 0, True, 0, [10, 11, 12], [20, 21, 22], 'api:known-witness')
     s2 = [np.array(['b', 'ab']), np.array(['a', 'bb'])]
     yield _parity_case(ctx, 'U', s2, ((1, False), (1, False)), 'sum', 0, True, idx2, col2)
+    import static_frame as sf
+    gcols = [np.array([.5, np.nan]), np.array([-2, 0], dtype=np.int64)]
+
+    def grown():
+        g = zoo.frame_from_columns(gcols[:1], ((1, False),), index=idx2, columns=col2[:1], cls=sf.FrameGO)
+        g[col2[1]] = gcols[1]
+        return g
+    c = _reduce_case(ctx, gcols, ((1, False), (1, False)), 'min', 1, False, 0, idx2, col2, 'api:known-witness', build=grown)
+    c.tags['finding'] = F_GO_OBJ
+    c.desc['build'] = 'FrameGO of the first column, then g[21] = second column'
+    yield c
+    on = np.empty(2, dtype=object)
+    yield _reduce_case(ctx, [on, np.array([True, False])], ((1, False), (1, False)), 'any', 0, True, 0, idx2, col2, 'api:known-witness')
+    t2 = [np.array([5, 2], dtype='timedelta64[D]'), np.array([3, 'NaT'], dtype='timedelta64[D]')]
+    yield _parity_case(ctx, 'm', t2, ((1, False), (1, False)), 'mean', 0, True, idx2, col2)
     d2 = [np.array(['2020-01-05', 'NaT'], dtype='datetime64[D]'), np.array(['2020-02-01', '2019-01-01'], dtype='datetime64[D]')]
     yield _parity_case(ctx, 'M', d2, ((2, True),), 'min', 0, True, idx2, col2)
 
@@ -797,6 +851,247 @@ def index_cases(ctx):
                        tags={'fn': fn, 'skipna': skipna, 'index': True}, nontrivial=r > 1)
 
 
+# ----------------------------------------------------------------------------- extension round: routes the coverage tool showed unreached
+F_IH_DTYPE = 'C15-indexhierarchy-dtype-kwarg'
+
+
+def _obs_array(got, two_d=False):
+    if isinstance(got, Exception):
+        return f'(Err {lit.s(lit.err_class(got))})', ('ERR', type(got).__name__)
+    a = np.asarray(got)
+    if two_d:
+        return None, a
+    vals = lit.array_vals(a)
+    return f'(Ok {_safe_vlist(vals)})', _j(vals)
+
+
+def hierarchy_cases(ctx):
+    """IndexHierarchy / IndexHierarchyGO reductions (index_hierarchy.py:_ufunc_axis_skipna on the 2-D label array): axis 0 per
+    depth, axis 1 per label; cumsum / cumprod through IndexBase._ufunc_shape_skipna"""
+    import static_frame as sf
+    rng = ctx.rng
+    for trial in range(ctx.n(6, 40)):
+        depth = rng.choice((2, 2, 3))
+        r = rng.choice((1, 2, 3, 4))
+        seen, rows = set(), []
+        while len(rows) < r:
+            t = tuple(rng.randint(-3, 4) for _ in range(depth))
+            if t not in seen:
+                seen.add(t)
+                rows.append(t)
+        rows.sort()                                     # tree order
+        floaty = rng.random() < .4
+        if floaty:
+            rows = [t[:-1] + (t[-1] + .5,) for t in rows]
+        cls = sf.IndexHierarchyGO if rng.random() < .3 else sf.IndexHierarchy
+        ih = _try(lambda: cls.from_labels(rows))
+        if isinstance(ih, Exception):
+            continue
+        cols = [np.array([t[d] for t in rows], dtype=(np.float64 if (floaty and d == depth - 1) else np.int64)) for d in range(depth)]
+        bl = _blocks_lit(cols, tuple((1, False) for _ in cols))
+        ddof = rng.choice((0, 1))
+        for fn in FUNCS:
+            for axis in (0, 1):
+                skipna = rng.random() < .5
+                kw = {'axis': axis, 'skipna': skipna}
+                if fn in ('std', 'var'):
+                    kw['ddof'] = ddof
+                obs, seen_ = _obs_array(_try(lambda: getattr(ih, fn)(**kw)))
+                tags = {'fn': fn, 'axis': axis, 'skipna': skipna, 'hierarchy': True}
+                if fn in ('min', 'max', 'median', 'all', 'any'):
+                    tags['finding'] = F_IH_DTYPE
+                ctx.count(f'ih:fn:{fn}', f'ih:depth:{depth}', f'ih:class:{cls.__name__}')
+                yield Case('api:indexhierarchy-reduce',
+                           {'call': f'{cls.__name__}.from_labels(labels).{fn}({", ".join(f"{a}={b}" for a, b in kw.items())})',
+                            'labels': _j([list(t) for t in rows]), 'observed': seen_},
+                           s=f'res_match outs_match (S_frame {COQ_F[fn]} {axis} {lit.b(skipna)} {lit.z(ddof)} {r}%nat (frame_cells {bl})) {obs}',
+                           tags=tags, nontrivial=r > 1)
+        for fn in ('cumsum', 'cumprod'):
+            for axis in (0, 1):
+                skipna = rng.random() < .5
+                got = _try(lambda: getattr(ih, fn)(axis=axis, skipna=skipna))
+                if isinstance(got, Exception):
+                    obs, seen_ = f'(Err {lit.s(lit.err_class(got))})', ('ERR', type(got).__name__)
+                else:
+                    a = np.asarray(got)
+                    lines = [lit.array_vals(a[:, j]) for j in range(a.shape[1])] if axis == 0 else [lit.array_vals(a[i, :]) for i in range(a.shape[0])]
+                    obs, seen_ = f'(Ok {lit.lst([lit.vlist(l) for l in lines])})', {'shape': list(a.shape), 'lines': _j(lines)}
+                ctx.count(f'ih:fn:{fn}')
+                yield Case('api:indexhierarchy-reduce',
+                           {'call': f'{cls.__name__}.from_labels(labels).{fn}(axis={axis}, skipna={skipna})',
+                            'labels': _j([list(t) for t in rows]), 'observed': seen_},
+                           s=(f'match {obs} with Ok ls => list_match outs_match (S_cumframe {lit.b(fn == "cumprod")} {axis} {lit.b(skipna)} {r}%nat '
+                              f'(frame_cells {bl})) ls | Err _ => false end'),
+                           tags={'fn': fn, 'axis': axis, 'skipna': skipna, 'hierarchy': True}, nontrivial=r > 1)
+
+
+def series_more_cases(ctx):
+    """Series.cumsum / cumprod (series.py:_ufunc_shape_skipna), Series.loc_min / loc_max, Index.cumsum / cumprod"""
+    import static_frame as sf
+    rng = ctx.rng
+    for _ in range(ctx.n(24, 200)):
+        k = rng.choice('ifgb')
+        r = rng.choice((0, 1, 2, 3, 4, 6))
+        c = _gen_col(rng, k, r)
+        labels = [f'r{i}' for i in range(r)] if rng.random() < .5 else list(range(10, 10 + r))
+        s = sf.Series(c, index=labels, name='s')
+        cells = lit.vlist(lit.array_vals(c))
+        skipna = rng.random() < .5
+        for fn in ('cumsum', 'cumprod'):
+            got = _try(lambda: getattr(s, fn)(skipna=skipna))
+            py_fail = None
+            if isinstance(got, Exception):
+                obs, seen = f'(Err {lit.s(lit.err_class(got))})', ('ERR', type(got).__name__)
+            else:
+                vals = lit.array_vals(got.values)
+                obs, seen = f'(Ok {_safe_vlist(vals)})', _j(vals)
+                if lit.labels(got.index) != labels:
+                    py_fail = f'labels {lit.labels(got.index)}, expected {labels}'
+            ctx.count(f'series:fn:{fn}')
+            yield Case('api:series-cumulative', {'call': f'Series.{fn}(skipna={skipna})', 'values': _j(c.tolist()), 'dtype': str(c.dtype),
+                                                 'index': labels, 'observed': seen},
+                       s=f'match {obs} with Ok vs => outs_match (S_cumline {lit.b(fn == "cumprod")} {lit.b(skipna)} (map cell_of {cells})) vs | Err _ => false end',
+                       py_fail=py_fail, tags={'fn': fn, 'skipna': skipna, 'series': True}, nontrivial=r > 1)
+        for fn in ('loc_min', 'loc_max'):
+            got = _try(lambda: getattr(s, fn)(skipna=skipna))
+            if isinstance(got, Exception):
+                obs, seen = f'(Err {lit.s(lit.err_class(got))})', ('ERR', type(got).__name__)
+            else:
+                obs, seen = f'(Ok {lit.val(got)})', _j(got)
+            ctx.count(f'series:fn:{fn}')
+            yield Case('api:series-loc-minmax', {'call': f'Series.{fn}(skipna={skipna})', 'values': _j(c.tolist()), 'dtype': str(c.dtype),
+                                                 'index': labels, 'observed': seen},
+                       s=(f'res_match py_val_eq (match S_argline {lit.b(fn == "loc_min")} {lit.b(skipna)} (map cell_of {cells}) with '
+                          f'Ok o => loc_of {lit.vlist(labels)} o | Err e => Err e end) {obs}'),
+                       tags={'fn': fn, 'skipna': skipna, 'series': True}, nontrivial=r > 1)
+    for _ in range(ctx.n(6, 40)):
+        r = rng.choice((1, 2, 3, 5))
+        c = np.array(rng.sample(range(-6, 9), r), dtype=np.int64)
+        idx = (sf.IndexGO if rng.random() < .3 else sf.Index)(c)
+        for fn in ('cumsum', 'cumprod'):
+            skipna = rng.random() < .5
+            got = _try(lambda: getattr(idx, fn)(skipna=skipna))
+            if isinstance(got, Exception):
+                obs, seen = f'(Err {lit.s(lit.err_class(got))})', ('ERR', type(got).__name__)
+            else:
+                vals = lit.array_vals(np.asarray(got))
+                obs, seen = f'(Ok {_safe_vlist(vals)})', _j(vals)
+            ctx.count(f'index:fn:{fn}')
+            yield Case('api:series-cumulative', {'call': f'{type(idx).__name__}.{fn}(skipna={skipna})', 'labels': _j(c.tolist()), 'observed': seen},
+                       s=f'match {obs} with Ok vs => outs_match (S_cumline {lit.b(fn == "cumprod")} {lit.b(skipna)} (map cell_of {lit.vlist(lit.array_vals(c))})) vs | Err _ => false end',
+                       tags={'fn': fn, 'skipna': skipna, 'index': True}, nontrivial=r > 1)
+
+
+def _obj_col(rng, r):
+    a = np.empty(r, dtype=object)
+    a[:] = [rng.choice([None, np.nan, 0, 2, 1.5, 0.0, True, False]) for _ in range(r)]
+    return a
+
+
+def object_logical_cases(ctx):
+    """object-dtype columns (Python ints / floats / bools, None and NaN as missing) under all / any: the object branch of
+    util._ufunc_logical_skipna (fill under skipna, TypeError without), 1-D and 2-D blocks, next to bool / int / float blocks"""
+    rng = ctx.rng
+    for _ in range(ctx.n(14, 120)):
+        m = rng.randint(1, 4)
+        kinds = [rng.choice('ooofbi') for _ in range(m)]
+        if 'o' not in kinds:
+            kinds[0] = 'o'
+        r = rng.choice((1, 2, 3, 4))
+        cols = [_obj_col(rng, r) if k == 'o' else _gen_col(rng, k, r) for k in kinds]
+        index, columns = _labels(None, r, m)
+        layout = rng.choice(list(zoo.layouts_for([c.dtype for c in cols])))
+        for fn in ('all', 'any'):
+            for axis in (0, 1):
+                for skipna in (True, False):
+                    yield _reduce_case(ctx, cols, layout, fn, axis, skipna, 0, index, columns, 'api:reduce-object-logical')
+
+
+F_OBJ_NONE = 'C15-object-none-noskip'
+F_LOC_HIER = 'C15-loc-minmax-hierarchical-labels'
+F_GO_OBJ = 'C15-framego-append-object-rows'
+
+
+def object_numeric_cases(ctx):
+    """object-dtype columns holding numbers, None and NaN under sum / prod / min / max: the None handling of
+    util.ufunc_axis_skipna (1-D: drop, 2-D: replace by NaN); without skipna a None must propagate as missing"""
+    rng = ctx.rng
+    for _ in range(ctx.n(10, 80)):
+        m = rng.randint(1, 3)
+        kinds = [rng.choice('oooi') for _ in range(m)]
+        if 'o' not in kinds:
+            kinds[0] = 'o'
+        r = rng.choice((2, 3, 4))
+        cols = [_obj_col(rng, r) if k == 'o' else _gen_col(rng, k, r) for k in kinds]
+        index, columns = _labels(None, r, m)
+        layout = rng.choice(list(zoo.layouts_for([c.dtype for c in cols])))
+        has_none = any(x is None for c in cols for x in c.tolist())
+        for fn in ('sum', 'prod', 'min', 'max'):
+            for axis in (0, 1):
+                for skipna in (True, False):
+                    c = _reduce_case(ctx, cols, layout, fn, axis, skipna, 0, index, columns, 'api:reduce-object-columns')
+                    if not skipna and has_none and 'finding' not in c.tags:
+                        c.tags['finding'] = F_OBJ_NONE
+                    yield c
+
+
+def hierarchical_label_cases(ctx):
+    """Frames whose index and / or columns are an IndexHierarchy: labels of the result, loc_min / loc_max returning
+    hierarchical labels"""
+    rng = ctx.rng
+    for _ in range(ctx.n(6, 40)):
+        m, r = rng.randint(2, 3), rng.randint(2, 4)
+        kinds = [rng.choice('ifg') for _ in range(m)]
+        cols = [_gen_col(rng, k, r) for k in kinds]
+        layout = rng.choice(list(zoo.layouts_for([c.dtype for c in cols])))
+        hi, hc = rng.choice(((True, False), (False, True), (True, True)))
+        index = sorted((('a', 'b')[i * 2 // r], i) for i in range(r)) if hi else list(range(10, 10 + r))
+        columns = sorted((('x', 'y')[j * 2 // m], j) for j in range(m)) if hc else list(range(20, 20 + m))
+        for fn in ('sum', 'min', 'all'):
+            for axis in (0, 1):
+                yield _reduce_case(ctx, cols, layout, fn, axis, True, 0, index, columns, 'api:hierarchical-labels')
+        for fn in ('iloc_min', 'loc_min', 'loc_max'):
+            for axis in (0, 1):
+                c = _arg_case(ctx, cols, layout, fn, axis, True, index, columns, 'api:hierarchical-labels')
+                if fn.startswith('loc') and ((axis == 0 and hi) or (axis == 1 and hc)) and 'finding' not in c.tags:
+                    c.tags['finding'] = F_LOC_HIER
+                yield c
+
+
+def framego_grown_cases(ctx):
+    """a FrameGO grown column by column (blocks appended after construction), then reduced"""
+    import static_frame as sf
+    rng = ctx.rng
+    for _ in range(ctx.n(6, 40)):
+        m, r = rng.randint(2, 4), rng.randint(2, 4)
+        kinds = [rng.choice('ifgb') for _ in range(m)]
+        cols = [_gen_col(rng, k, r) for k in kinds]
+        k0 = rng.randint(1, m - 1)
+        lay0 = rng.choice(list(zoo.layouts_for([c.dtype for c in cols[:k0]])))
+        layout = tuple(lay0) + tuple((1, False) for _ in range(m - k0))
+        index, columns = _labels(None, r, m)
+
+        def build():
+            g = zoo.frame_from_columns(cols[:k0], lay0, index=index, columns=columns[:k0], cls=sf.FrameGO)
+            for j in range(k0, m):
+                g[columns[j]] = cols[j]
+            return g
+        # TypeBlocks.append: a block whose dtype differs from the current row dtype makes the row dtype object
+        rd = np.result_type(*[c.dtype for c in cols[:k0]]) if _row_kind(cols[:k0]) != 'O' else np.dtype(object)
+        for c in cols[k0:]:
+            if c.dtype != rd:
+                rd = np.dtype(object)
+        became_object = rd == np.dtype(object) and _row_kind(cols) != 'O'
+        for fn in ('sum', 'min', 'max', 'mean', 'any'):
+            for axis in (0, 1):
+                skipna = rng.random() < .5
+                c = _reduce_case(ctx, cols, layout, fn, axis, skipna, 0, index, columns, 'api:framego-grown', build=build)
+                if became_object and 'finding' not in c.tags and (fn in ('min', 'max') or (axis == 1 and fn == 'mean')):
+                    c.tags['finding'] = F_GO_OBJ
+                c.desc['build'] = f'FrameGO of the first {k0} column(s) in the first blocks of the layout, then g[label] = column for each remaining column'
+                yield c
+
+
 def cases(ctx):
     yield from known_witnesses(ctx)
     yield from api_all_layouts(ctx)
@@ -808,4 +1103,10 @@ def cases(ctx):
     yield from kernel_cases(ctx)
     yield from series_cases(ctx)
     yield from index_cases(ctx)
+    yield from hierarchy_cases(ctx)
+    yield from series_more_cases(ctx)
+    yield from object_logical_cases(ctx)
+    yield from object_numeric_cases(ctx)
+    yield from hierarchical_label_cases(ctx)
+    yield from framego_grown_cases(ctx)
     yield from api_numeric(ctx)
